@@ -8,7 +8,7 @@ use proptest::strategy::BoxedStrategy;
 use serde::{de::DeserializeOwned, Serialize};
 use serde_json::Value;
 
-pub trait AnySub: Sync {
+pub trait AnySub: Sync + Send {
     fn name(&self) -> &'static str;
     fn run(&self, ctx: &Ctx, tier: Tier);
     fn replay(&self, ctx: &Ctx, case: &Value) -> bool;
